@@ -10,6 +10,7 @@ import (
 	"testing"
 	"time"
 
+	"github.com/jonboulle/clockwork"
 	"google.golang.org/protobuf/proto"
 	"google.golang.org/protobuf/reflect/protoreflect"
 	"google.golang.org/protobuf/types/known/anypb"
@@ -586,16 +587,24 @@ func (h *vH) runRealGater(t *testing.T, n int) {
 	const spe, allowed = 4, 2
 	genesis := time.Unix(1_700_000_000, 0)
 	slotDur := time.Second
-	bmock, err := beaconmock.New(context.Background(), beaconmock.WithGenesisTime(genesis),
+	ctx, cancel := context.WithCancel(context.Background())
+	defer cancel()
+	bmock, err := beaconmock.New(ctx, beaconmock.WithGenesisTime(genesis),
 		beaconmock.WithSlotDuration(slotDur), beaconmock.WithSlotsPerEpoch(spe))
+	if err != nil {
+		t.Fatal(err)
+	}
+	deadlineFunc, err := core.NewDutyDeadlineFunc(ctx, bmock)
 	if err != nil {
 		t.Fatal(err)
 	}
 	w := h.newWorld(n, "real-gater")
 	defer w.finish()
-	for _, curSlot := range []uint64{0, 5, 41} {
+	for _, curSlot := range []uint64{0, 5, 41, 100_000} {
 		now := genesis.Add(time.Duration(curSlot) * slotDur).Add(300 * time.Millisecond)
-		gater, err := core.NewDutyGater(context.Background(), bmock, core.WithDutyGaterForT(t, func() time.Time { return now }, allowed))
+		clock := clockwork.NewFakeClockAt(now)
+		// the REAL gater and the REAL deadliner (real deadline function) on one fake clock
+		gater, err := core.NewDutyGater(ctx, bmock, core.WithDutyGaterForT(t, clock.Now, allowed))
 		if err != nil {
 			t.Fatal(err)
 		}
@@ -603,13 +612,20 @@ func (h *vH) runRealGater(t *testing.T, n int) {
 		e := vEnvDefault()
 		e.gater = fmt.Sprintf("(GReal %d %d %d)", curEpoch, spe, allowed)
 		e.gaterFunc = gater
+		e.realDL = core.NewDeadlinerForT(ctx, t, deadlineFunc, clock)
+		e.realTerm = fmt.Sprintf("%d %d %d", now.Sub(genesis).Nanoseconds(), slotDur.Nanoseconds(), spe)
 		edge := (curEpoch + allowed) * spe
-		for _, slot := range []uint64{0, curSlot, edge, edge + spe - 1, edge + spe, edge + spe + 1, 1 << 40} {
-			for _, typ := range []core.DutyType{core.DutyAttester, core.DutyProposer, core.DutyInfoSync} {
+		slots := []uint64{0, curSlot, edge, edge + spe - 1, edge + spe, edge + spe + 1, 1 << 31, 1 << 32, 1 << 40,
+			1<<63 - 1, 1 << 63, 1<<63 + curSlot, 1<<63 + curSlot + 1, 1<<63 + edge + spe, 1<<64 - 1, 1<<64 - spe, (1<<64 - 1) / spe}
+		if curSlot >= 3*spe { // duties whose deadline has passed
+			slots = append(slots, curSlot-1, curSlot-spe, curSlot-spe-1, curSlot-2*spe-1, curSlot-3*spe)
+		}
+		for _, slot := range slots {
+			for _, typ := range []core.DutyType{core.DutyAttester, core.DutyProposer, core.DutyInfoSync, core.DutyExit, core.DutyPrepareAggregator} {
 				duty := core.Duty{Slot: slot, Type: typ}
 				v := w.newValue(2, byte(slot))
-				m := w.mk(qbft.MsgCommit, duty, int(slot)%n, 1, v.hash, 0, [32]byte{}, nil, v)
-				w.call(e, vWire(m), vCase{base: -1, class: "env-gater-real", op: fmt.Sprintf("cur=%d slot=%d", curSlot, slot), expect: "model"})
+				m := w.mk(qbft.MsgCommit, duty, int(slot%uint64(n)), 1, v.hash, 0, [32]byte{}, nil, v)
+				w.call(e, vWire(m), vCase{base: -1, class: "env-gater-real", path: "msg.duty.slot", op: fmt.Sprintf("now=slot %d, duty slot=%d type=%s (real gater, real deadliner)", curSlot, slot, typ), expect: "model"})
 				w.maybeDrain(duty)
 			}
 		}
